@@ -466,4 +466,7 @@ def run(ctx):
     # reading a system model goes through System.__init__ with the symbols and masses of the file: lists longer than the atom types in use are kept in full
     from .c06 import construct_lists
     ctx.run_rules([uc_model, box_model, atoms_model, system_model, ec_model, fmt, lambda c: construct_lists(c, 'SYSTEM-MODEL'), _ec_normalized,
-                   lambda c: __import__('amverif.lints', fromlist=['x']).fresh_results(c, 'UC-MODEL', UC, floor=9, what='a value computed from the working units in force at the time of the call (a model is written under one set of working units and read under another)')])
+                   lambda c: __import__('amverif.lints', fromlist=['x']).fresh_results(c, 'UC-MODEL', UC, floor=9, what='a value computed from the working units in force at the time of the call (a model is written under one set of working units and read under another)'),
+                   # a value written without a unit, or a single number, goes through the same writer: array-like in, plain Python values in the model
+                   lambda c: __import__('amverif.lints', fromlist=['x']).arraylike(c, 'ARRAY-LIKE', UC, floor=4, extra_converters=('get_in_units', 'set_in_units')),
+                   lambda c: __import__('amverif.lints', fromlist=['x']).native_values(c, "NATIVE-VALUES", UC, "model", str_params=("units",), floor=3)])
